@@ -208,6 +208,10 @@ def _py_pred(col, op, val):
             return None
         if _isnan(x) or _isnan(l):
             return o == "!="
+        if isinstance(x, dt.date) and not isinstance(x, dt.datetime) and isinstance(l, dt.datetime):
+            x = dt.datetime(x.year, x.month, x.day)        # a date is the midnight of its day when compared with a timestamp (SQL widening)
+        elif isinstance(l, dt.date) and not isinstance(l, dt.datetime) and isinstance(x, dt.datetime):
+            l = dt.datetime(l.year, l.month, l.day)
         return {"==": x == l, "!=": x != l, "<": x < l, "<=": x <= l, ">": x > l, ">=": x >= l}[o]
 
     def pred(row):
@@ -379,6 +383,17 @@ def _end_to_end(ctx, rep):
             # a file larger than the writer's batch with one NaN in its second thousand
             ([[{"i": k, "f": (NAN if k == 1500 else float(k % 7))} for k in range(2500)], [{"i": 9000, "f": 4.0}]], "f", "!=", 4.0),
             ([[{"i": k, "f": (NAN if k == 1500 else (50.0 if k == 1501 else float(k % 7)))} for k in range(2500)]], "f", ">=", 50.0),
+            # a date column filtered with a datetime literal that has a time of day; one file per day
+            ([[{"d": dt.date(2024, 1, 1)}], [{"d": dt.date(2024, 1, 2)}, {"d": dt.date(2024, 1, 2)}], [{"d": dt.date(2024, 1, 3)}]], "d", "<", dt.datetime(2024, 1, 2, 12, 0)),
+            ([[{"d": dt.date(2024, 1, 1)}], [{"d": dt.date(2024, 1, 2)}, {"d": dt.date(2024, 1, 2)}], [{"d": dt.date(2024, 1, 3)}]], "d", "!=", dt.datetime(2024, 1, 2, 12, 0)),
+            # integers a double cannot hold
+            ([[{"i": 2**53 + 1}, {"i": 5}], [{"i": 7}]], "i", "==", 2**53 + 1),
+            ([[{"i": 2**53 + 1}, {"i": 5}], [{"i": 7}]], "i", ">", 2**53),
+            ([[{"i": 2**63 - 1}, {"i": 5}], [{"i": 7}]], "i", ">=", 2**63 - 1),
+            ([[{"i": -(2**63) + 1}, {"i": 5}], [{"i": 7}]], "i", "<", -(2**63) + 2),
+            # long strings sharing a prefix
+            ([[{"s": "customer-0123456789-a"}, {"s": "customer-0123456789-m"}], [{"s": "zz"}]], "s", "==", "customer-0123456789-m"),
+            ([[{"s": "customer-0123456789-a"}, {"s": "customer-0123456789-m"}], [{"s": "zz"}]], "s", ">", "customer-0123456789-b"),
             # between with a NULL end point matches nothing (SQL), it is not an open-ended range
             ([[{"i": 1}, {"i": 15}, {"i": None}, {"i": 30}]], "i", "between", (None, 20)),
             ([[{"i": 1}, {"i": 15}, {"i": None}, {"i": 30}]], "i", "between", (10, None)),
